@@ -3,6 +3,8 @@
 namespace Radix.Generated.C46
 
 def W_CONST : Nat := 1372
+def W_DROP : Nat := 1372
+def W_EQZ : Nat := 1889
 def W_ADD : Nat := 1623
 def W_SUB : Nat := 2212
 def W_MUL : Nat := 1640
@@ -17,22 +19,20 @@ def W_EQ : Nat := 2149
 def W_NE : Nat := 1628
 def W_LTU : Nat := 2088
 def W_GTU : Nat := 1661
-def W_EQZ : Nat := 1889
 def W_EXTEND : Nat := 1939
 def W_LOCAL_GET : Nat := 2816
 def W_LOCAL_SET : Nat := 2822
 def W_LOCAL_TEE : Nat := 2087
-def W_DROP : Nat := 1372
 def W_SELECT : Nat := 3434
 def W_NOP : Nat := 1372
-def W_BR : Nat := 3529
-def W_BR_IF : Nat := 4706
-def W_RETURN : Nat := 0
-def W_CALL : Nat := 14340
-def W_UNREACHABLE : Nat := 0
 def W_BLOCK : Nat := 1372
 def W_LOOP : Nat := 1372
 def W_IF : Nat := 8054
+def W_BR : Nat := 3529
+def W_BR_IF : Nat := 4706
+def W_RETURN : Nat := 0
+def W_UNREACHABLE : Nat := 0
+def W_CALL : Nat := 14340
 def W_PER_LOCAL : Nat := 1651
 def MAX_STACK_SIZE : Nat := 1024
 
